@@ -147,23 +147,28 @@ func instrDominates(a, b ssa.Instruction) bool {
 
 // calleeIs: the call's static callee is the function pkgPath.name (methods:
 // name is "(T).M" or "(*T).M" as rendered by types.Func.FullName sans package).
+// funcCallName is the name a static call of f is recorded under.
+func funcCallName(f *ssa.Function) string {
+	if f.Object() != nil {
+		if fo, ok := f.Object().(*types.Func); ok {
+			n := strings.ReplaceAll(strings.ReplaceAll(fo.FullName(), modPath+"/", ""), modPath+".", "zlint.")
+			if old := aliasedBase(f); old != "" {
+				if i := strings.LastIndex(n, "."); i >= 0 {
+					n = n[:i+1] + old
+				}
+			}
+			return n
+		}
+	}
+	return f.String()
+}
+
 func staticCalleeName(cc *ssa.CallCommon) string {
 	if cc.IsInvoke() {
 		return "invoke:" + cc.Method.FullName()
 	}
 	if f := cc.StaticCallee(); f != nil {
-		if f.Object() != nil {
-			if fo, ok := f.Object().(*types.Func); ok {
-				n := strings.ReplaceAll(strings.ReplaceAll(fo.FullName(), modPath+"/", ""), modPath+".", "zlint.")
-				if old := aliasedBase(f); old != "" {
-					if i := strings.LastIndex(n, "."); i >= 0 {
-						n = n[:i+1] + old
-					}
-				}
-				return n
-			}
-		}
-		return f.String()
+		return funcCallName(f)
 	}
 	if b, ok := cc.Value.(*ssa.Builtin); ok {
 		return "builtin:" + b.Name()
